@@ -72,6 +72,10 @@ def gen_case(rng, supervised, diagonal):
   with warnings.catch_warnings():
     warnings.simplefilter('ignore')
     try:
+      if init_kind == 'array' and rng.random() < 0.5:
+        # the user's init array has been used by an earlier fit (same object): the budget is still that of the requested init
+        gen.MMC(**dict(kw, max_iter=5)).fit(pairs.copy(), lab.copy())
+        ev['init_array_used_before'] = True
       with FDProbe() as pr:
         if supervised:
           est = gen.MMC_Supervised(n_constraints=n_c, **kw).fit(X.copy(), y.copy())
@@ -80,7 +84,15 @@ def gen_case(rng, supervised, diagonal):
       pos, neg = pairs[lab == 1], pairs[lab == -1]
       S = pos[:, 0] - pos[:, 1]
       Dv = neg[:, 0] - neg[:, 1]
-      A0 = _initialize_metric_mahalanobis(pairs, init, random_state=seed, matrix_name='init')
+      # the DOCUMENTED initial matrix, without the library where the documentation defines it
+      if init_kind == 'array':
+        A0 = init.copy()
+      elif init_kind == 'identity':
+        A0 = np.eye(d)
+      elif init_kind == 'covariance':
+        A0 = np.linalg.pinv(np.atleast_2d(np.cov(np.unique(np.vstack(pairs), axis=0), rowvar=False)), hermitian=True)
+      else:
+        A0 = _initialize_metric_mahalanobis(pairs.copy(), init, random_state=seed, matrix_name='init')
       ev.update(A0=dym(A0), A=dym(est.A_), L=dym(est.components_), S=dym(S), D=dym(Dv))
       if not diagonal:
         calls = pr.calls
@@ -110,7 +122,7 @@ def run(ctx):
   ctx.model('MC_MMC', 'MC_MMC.cfg', workers=8)
   rng = np.random.default_rng(ctx.seed + 14)
   rs = []
-  for i in range(8 if ctx.quick else 48):
+  for i in range(16 if ctx.quick else 96):
     rs.append(dict(supervised=bool(i % 2), diagonal=bool(i % 4 == 3), n=4 if ctx.quick else 10, seed=int(rng.integers(1 << 30))))
   ctx.rule = ('random labelled pair sets x init in {identity, covariance, random, SPD array} x max_iter 1..11 x tol x max_proj '
               'x diagonal in {False (3/4), True (1/4)} x diagonal_c; MMC and MMC_Supervised; one record per cycle (kept / '
